@@ -22,6 +22,14 @@ P = {
          "refinement to abstract spec (map laws); differential correspondence", "7 C11"),
  "C17": ("spec-level theorem: every error other than the four 'late' classes leaves the state unchanged, read-only calls always do; decision tables for the argument checkers; correspondence on a grammar of invalid arguments with byte-exact before/after snapshots",
          "frame theorem + decision tables; differential correspondence", "7 C17"),
+ "C14": ("decision theorems over the configuration model: reopen succeeds iff depth/width (int-coerced), algorithm and namespace equal the stored ones; an existing yaml is never rewritten; data directories without a yaml are refused; creation iff one of the five DataONE names; table equalities (accepted algorithms, required keys, subfolders) against the source; grid of (creation, reopening) pairs with byte snapshots on the real constructor",
+         "decision logic stated outright + table translation; differential correspondence on the constructor", "7 C14"),
+ "C15": ("for all depth, width, strings: _shard as written equals the README layout; tokens concatenate to the key (injective), are non-empty, exact shape for proper configurations; path of each kind of file; yaml keys by table translation; grid of configurations with an independent path oracle and exhaustive shard grid",
+         "algebraic laws by induction over depth; differential correspondence + independent layout oracle", "7 C15"),
+ "C18": ("text lemmas for all strings: membership and removal in a reference list are whole-line operations (prefix / suffix / case variants unaffected), accepted identifiers contain no whitespace; paths consist of hash tokens only; frame theorem on the specification: a call addressed to one pid leaves every other pid's binding and documents unchanged; NoColl gives distinct locations; adversarial identifier generator on the real code incl. paths outside the root; exhaustive isspace sweep",
+         "algebraic laws on text + frame theorem on the abstract spec; differential correspondence", "7 C18"),
+ "C20": ("dispatch model of main(): every produced call is well typed (str/None identifiers, int/None size), decision table verb x options -> API call with the default-namespace substitution, missing required option -> ValueError and no call; refutation for the as-found str size; argparse table extracted from the source; client run in-process with a recording proxy vs the corresponding API call on a copy",
+         "decision logic stated outright + table translation; differential run client vs API", "7 C20"),
  "C19": ("spec-level theorems: without validation data the one-call and the store-then-tag procedures reach the same state with the same outcome; both procedures judge by the same verdict (comparison with the true digest, independent of which digests were pre-computed); two-store differential run of both procedures on the real code",
          "refinement to abstract spec (convergence) + decision logic; two-procedure differential run", "7 C19"),
 }
